@@ -785,14 +785,17 @@ def loop_headers(body):
                 continue
             j = i + 1
             d = 0
+            in_off = None
             while j < len(toks):
                 x = toks[j].text
                 if x in ("(", "["):
                     d += 1
                 elif x in (")", "]"):
                     d -= 1
+                elif x == "in" and d == 0 and t.text == "for" and in_off is None and toks[j].kind == "ident":
+                    in_off = toks[j + 1].start
                 elif x == "{" and d == 0:
-                    res.append(toks[j].start)
+                    res.append((toks[j].start, in_off))
                     break
                 j += 1
     return res
@@ -963,7 +966,8 @@ class Gen:
                 mode = "ensures"
             elif bs.startswith("loop "):
                 cur_loop = int(bs.split()[1])
-                loops[cur_loop] = dict(invariant=[], decreases=[], ensures=[], invariant_except_break=[])
+                loops[cur_loop] = dict(invariant=[], decreases=[], ensures=[], invariant_except_break=[],
+                                       iter=parse_kv(bs).get("iter"))
                 mode = "loop"
             elif bs in ("invariant", "decreases", "invariant_except_break") and cur_loop is not None and mode in ("loop", "linv", "ldec", "lens", "lieb"):
                 mode = {"invariant": "linv", "decreases": "ldec", "invariant_except_break": "lieb"}[bs]
@@ -1068,7 +1072,12 @@ class Gen:
                         for nm, t, vl in spec[key]:
                             txt_lines.append("    " + t)
                             names.append(nm)
-                inserts.append((heads[n_], "\n" + "\n".join(txt_lines) + "\n", names))
+                inserts.append((heads[n_][0], "\n" + "\n".join(txt_lines) + "\n", names))
+                if spec.get("iter"):
+                    if heads[n_][1] is None:
+                        raise VxError("loop %d of %s::%s is not a for-loop (iter=)" % (n_, rel, name))
+                    inserts.append((heads[n_][1], spec["iter"] + ": ", "INLINE"))
+                    self.log.append(dict(rule="G1", file=rel, line=fn_line, before="for .. in E", after="for .. in %s: E (ghost iterator name)" % spec["iter"], fn=name))
         for rx, where, tl in ats:
             ms = list(re.finditer(rx, body))
             if len(ms) != 1:
@@ -1107,6 +1116,12 @@ class Gen:
         # body with inserts
         inserts.sort(key=lambda x: x[0])
         pos = 0
+        # inline inserts (ghost iterator names) are applied textually first, from the back
+        for off, text, names in sorted([x for x in inserts if x[2] == "INLINE"], key=lambda x: -x[0]):
+            body = body[:off] + text + body[off:]
+            inserts = [(o + (len(text) if o > off else 0), t, n) for (o, t, n) in inserts if n != "INLINE" or o != off]
+        inserts = [x for x in inserts if x[2] != "INLINE"]
+        inserts.sort(key=lambda x: x[0])
         for off, text, names in inserts:
             seg = body[pos:off]
             if seg:
